@@ -183,7 +183,7 @@ export async function localise(env, core, v, judge, want /* {impl, ref} at the r
   let cur = [core, v];
   let curJ = want;
   const path = [];
-  for (let depth = 0; depth < 24; depth++) {
+  for (let depth = 0; depth < 400; depth++) {
     let next = null;
     for (const [t2, v2] of children(env, cur[0], cur[1])) {
       let j;
